@@ -361,6 +361,13 @@ def run_route(sr, FO, net, steps):
             ax_b = [x - len(lb) if k % 2 else x for k, x in enumerate(ax_b)]
         C = sr.tensordot(A, B, axes=(tuple(ax_a), tuple(ax_b)), mode=st['mode'], preserve_array=True)
         lc = [x for x in la if x not in first] + [x for x in lb if x not in first]
+        if C.ndim == 0 and st['split'] is None:
+            # the plain-number return path of a full contraction (preserve_array left at its default) must be the same number
+            val = sr.tensordot(A, B, axes=(tuple(ax_a), tuple(ax_b)), mode=st['mode'])
+            cs = C.phase_sync()
+            held = complex(np.asarray(cs.blocks[()]).item()) if cs.blocks else 0j
+            if complex(np.asarray(val).item()) != held:
+                raise AssertionError('full contraction returned as a plain number gives %r, as a rank-0 array it holds %r' % (complex(np.asarray(val).item()), held))
         if st['split'] is not None:
             # the remaining shared bonds are traced afterwards (one einsum:
             # numpy forbids a repeated subscript in the output)
